@@ -2,6 +2,7 @@
 from __future__ import annotations
 
 import ast
+import re
 
 from ..odemodel import model, FILE, Y
 from ..pymodel import package
@@ -16,7 +17,10 @@ EXPLANATION = (
     "un-indexed networks, runs before _prepare_ode_content on the only path of TemplateLoader.render; R4 the ODE-modifier RHS site adds "
     "'+ (factor) * prod(y[IDX_dep])' to the row species.index(Species(name, **kwargs)) only, factors and dependency lists paired by zip, "
     "one abundance factor per listed dependency (with multiplicity); R5 the dictionary keys 'factors'/'reactants' agree between the "
-    "option parser, the example data, the example command and the template loader.")
+    "option parser, the example data, the example command and the template loader; R6 the --ode-modifier parser accumulates: an entry is "
+    "created only for a species seen for the first time and every term is appended to that entry (no update/overwrite/re-binding); R7 every "
+    "store of a modifier table anywhere in the package (Network, configuration, commands) stores the whole table received -- nothing between "
+    "the user and _prepare_ode_content filters or rewrites it.")
 ASSUMPTIONS = [
     "the Jacobian part of a modifier is C02.R1/R2",
     "option values containing the separators ':' ',' ';' are C20's residual",
@@ -38,6 +42,140 @@ def check(ctx):
     _r3(ctx)
     _r4(ctx, m)
     _r5(ctx, m)
+    _r6(ctx)
+    _r7(ctx)
+
+
+# ------------------------------------------------------------------ R6  command line: every term is accumulated
+
+def _r6(ctx):
+    pkg = package(ctx.tree)
+    ih = pkg.method("InitCommand", "handle")
+    ctx.saw(INIT, "InitCommand.handle")
+    loops = [n for n in ast.walk(ih) if isinstance(n, ast.For) and "ode_modifier_str" in ast.unparse(n.iter)]
+    if len(loops) != 1:
+        ctx.missing("R6", "--ode-modifier loop", (INIT, ih.lineno), f"expected one loop over the --ode-modifier occurrences, found {len(loops)}")
+        return
+    D = "ode_modifier"
+    problems, entry_alias, appends, creates = [], set(), set(), 0
+
+    def absent_guard(test, pol):
+        """does (test, polarity) say `key is not in D yet`?"""
+        t = ast.unparse(test).replace(" ", "")
+        if re.fullmatch(rf"{D}\.get\(\w+\)", t) or re.fullmatch(rf"\w+in{D}", t):
+            return not pol
+        if re.fullmatch(rf"\w+notin{D}", t) or re.fullmatch(rf"not{D}\.get\(\w+\)", t):
+            return pol
+        return False
+
+    def rec(stmts, guards):
+        nonlocal creates
+        for st in stmts:
+            if isinstance(st, ast.If):
+                rec(st.body, guards + [(st.test, True)])
+                rec(st.orelse, guards + [(st.test, False)])
+                continue
+            if isinstance(st, (ast.For, ast.While)):
+                rec(st.body, guards)
+                rec(st.orelse, guards)
+                continue
+            if isinstance(st, (ast.With, ast.Try)):
+                rec(getattr(st, "body", []), guards)
+                continue
+            for n in ast.walk(st):
+                if isinstance(n, ast.Assign):
+                    for t in n.targets:
+                        if isinstance(t, ast.Name) and t.id == D:
+                            problems.append((n.lineno, f"`{D}` is re-bound inside the loop over the option occurrences: earlier occurrences are forgotten"))
+                        if isinstance(t, ast.Subscript) and ast.unparse(t.value) == D:
+                            if any(absent_guard(g, p_) for g, p_ in guards):
+                                creates += 1
+                            else:
+                                problems.append((n.lineno, f"`{ast.unparse(t)} = ...` is not restricted to a species seen for the first time: it replaces the terms collected so far for that species"))
+                    if isinstance(n.value, ast.Call) and isinstance(n.value.func, ast.Attribute) and n.value.func.attr == "setdefault" and ast.unparse(n.value.func.value) == D \
+                            and isinstance(n.targets[0], ast.Name):
+                        entry_alias.add(n.targets[0].id)
+                        creates += 1
+                if isinstance(n, ast.Call) and isinstance(n.func, ast.Attribute):
+                    base = ast.unparse(n.func.value)
+                    if n.func.attr in ("update", "clear", "pop", "popitem", "__setitem__") and base == D:
+                        problems.append((n.lineno, f"`{D}.{n.func.attr}(...)` replaces whole entries: when a species is named in two --ode-modifier occurrences only the terms of the last one survive"))
+                    if n.func.attr in ("append", "extend"):
+                        m_ = re.fullmatch(rf"(?:{D}\[\w+\]|(\w+))\[['\"](\w+)['\"]\]", base)
+                        if m_ and (m_.group(1) is None or m_.group(1) in entry_alias):
+                            appends.add(m_.group(2))
+
+    rec(loops[0].body, [])
+    w = (INIT, loops[0].lineno)
+    for ln, msg in problems:
+        ctx.bad("R6", f"--ode-modifier: accumulate:{msg.split(':')[0][:50]}", (INIT, ln), msg, expected="append to the lists of the species' single entry")
+    if not problems:
+        ctx.ok("R6", "--ode-modifier: accumulate", w, "entries are only created for a species seen for the first time; nothing replaces an entry")
+    ctx.check(creates >= 1 and {"factors", "reactants"} <= appends, "R6", "--ode-modifier: terms appended to the species' own entry", w,
+              "factor and dependency list of every term are appended to dict[species]", expected="appends to ['factors'] and ['reactants'] of ode_modifier[key]", found=f"creates={creates} appends={sorted(appends)}")
+
+
+# ------------------------------------------------------------------ R7  the tables are carried, never rewritten, between user and generator
+
+MOD_ATTRS = {"rate_modifier", "ode_modifier", "_rate_modifier", "_ode_modifier", "_ratemodifier", "_odemodifier"}
+
+
+def _whole_copy(v: ast.AST) -> bool:
+    """value forms that carry a whole table: X, X.copy(), dict(X), copy.deepcopy(X), and `<that> if X else {}`"""
+    if isinstance(v, ast.IfExp):
+        return all(_whole_copy(x) or (isinstance(x, ast.Dict) and not x.keys) for x in (v.body, v.orelse))
+    if isinstance(v, (ast.Name, ast.Attribute)):
+        return True
+    if isinstance(v, ast.Call):
+        f = ast.unparse(v.func)
+        if isinstance(v.func, ast.Attribute) and v.func.attr == "copy" and not v.args:
+            return _whole_copy(v.func.value)
+        if f in ("dict", "copy.deepcopy", "deepcopy", "copy.copy") and len(v.args) == 1 and not v.keywords:
+            return _whole_copy(v.args[0])
+    return False
+
+
+def _r7(ctx):
+    pkg = package(ctx.tree)
+    n = 0
+    for f in pkg.files:
+        if not f.startswith("naunet/") or f.startswith("naunet/examples/") or not f.endswith(".py"):
+            continue
+        mod = pkg.modules[f]
+        ctx.saw(f)
+
+        def visit(node, qual):
+            nonlocal n
+            for ch in ast.iter_child_nodes(node):
+                if isinstance(ch, ast.ClassDef):
+                    visit(ch, ch.name)
+                elif isinstance(ch, (ast.FunctionDef, ast.AsyncFunctionDef)):
+                    visit(ch, f"{qual}.{ch.name}" if qual else ch.name)
+                else:
+                    if isinstance(ch, (ast.Assign, ast.AugAssign, ast.AnnAssign)):
+                        tgts = ch.targets if isinstance(ch, ast.Assign) else [ch.target]
+                        for t in tgts:
+                            if isinstance(t, ast.Attribute) and t.attr in MOD_ATTRS:
+                                n += 1
+                                key = f"{qual}:{ast.unparse(t)}"
+                                val = ch.value
+                                whole = val is not None and _whole_copy(val) and not isinstance(ch, ast.AugAssign)
+                                owner_self = isinstance(t.value, ast.Name) and t.value.id == "self"
+                                if whole:
+                                    ctx.ok("R7", key, (f, ch.lineno), "the whole table is stored (copy)")
+                                else:
+                                    ctx.bad("R7", key, (f, ch.lineno), ("the network's modifier table is replaced by a rewritten one" if not owner_self else "the stored modifier table is not the whole table given") +
+                                            ": entries the user supplied can vanish between the configuration file and the generator (keys are matched against idxfromfile only inside "
+                                            "_prepare_ode_content, after re-indexing)", expected="X.copy() of the table received", found=ast.unparse(val)[:120] if val is not None else "")
+                    visit(ch, qual)
+        visit(mod, "")
+    ctx.floor("R7", "stores of a modifier table", n, 8)
+    # the getters hand out the stored table itself
+    for attr, store in (("rate_modifier", "_rate_modifier"), ("ode_modifier", "_ode_modifier")):
+        ci = pkg.cls("Network")
+        getters = [fn for fn in ci.node.body if isinstance(fn, ast.FunctionDef) and fn.name == attr and any(ast.unparse(d) == "property" for d in fn.decorator_list)]
+        ok = len(getters) == 1 and any(isinstance(x, ast.Return) and ast.unparse(x.value) in (f"self.{store}", f"self.{store}.copy()") for x in getters[0].body)
+        ctx.check(ok, "R7", f"Network.{attr} getter", (NETWORK, getters[0].lineno if getters else 0), "the property returns the stored table", expected=f"return self.{store}")
 
 
 def _r1(ctx, m):
@@ -342,6 +480,12 @@ def _r5(ctx, m):
 
 T = FILE
 MUTANTS = [
+    {"name": "init-ode-modifier-update", "file": INIT, "old": '                if ode_modifier.get(key):\n                    ode_modifier[key]["factors"].append(fact)\n                    ode_modifier[key]["reactants"].append(rdep)\n                else:\n                    ode_modifier[key] = {\n                        "factors": [fact],\n                        "reactants": [rdep],\n                    }\n',
+     "new": '                ode_modifier.update({key: {"factors": [fact], "reactants": [rdep]}})\n', "rules": ["R6"]},
+    {"name": "init-ode-modifier-overwrite", "file": INIT, "old": '                if ode_modifier.get(key):\n                    ode_modifier[key]["factors"].append(fact)\n                    ode_modifier[key]["reactants"].append(rdep)\n                else:\n',
+     "new": '                if False:\n                    pass\n                else:\n', "rules": ["R6"]},
+    {"name": "render-prunes-rate-modifier", "file": RENDER, "old": '        dupes, dupidx, first = net.find_duplicate_reaction(mode="short")', "new": '        net.rate_modifier = {k: v for k, v in rate_modifier.items() if k >= 0}\n        dupes, dupidx, first = net.find_duplicate_reaction(mode="short")', "rules": ["R7"]},
+    {"name": "network-stores-filtered", "file": NETWORK, "old": "        self._rate_modifier = rate_modifier.copy() if rate_modifier else {}", "new": "        self._rate_modifier = {k: v for k, v in rate_modifier.items() if v} if rate_modifier else {}", "rules": ["R7"]},
     {"name": "override-neq", "file": T, "old": "if key == reac.idxfromfile:", "new": "if key != reac.idxfromfile:", "rules": ["R1"]},
     {"name": "override-break", "file": T, "old": '                    rateeqns[idx] = f"{rate_sym}[{idx}] = {value};"\n', "new": '                    rateeqns[idx] = f"{rate_sym}[{idx}] = {value};"\n                    break\n', "rules": ["R1"]},
     {"name": "override-slot-shift", "file": T, "old": 'rateeqns[idx] = f"{rate_sym}[{idx}] = {value};"', "new": 'rateeqns[idx + 1] = f"{rate_sym}[{idx}] = {value};"', "rules": ["R1"]},
@@ -358,6 +502,9 @@ MUTANTS = [
     {"name": "reindex-from-1", "file": NETWORK, "old": "for idx, reac in enumerate(self.reaction_list):\n            reac.idxfromfile = idx", "new": "for idx, reac in enumerate(self.reaction_list):\n            reac.idxfromfile = str(idx)", "rules": ["R2", "R3"]},
 ]
 BENIGN = [
+    {"name": "init-ode-modifier-setdefault", "file": INIT, "old": '                if ode_modifier.get(key):\n                    ode_modifier[key]["factors"].append(fact)\n                    ode_modifier[key]["reactants"].append(rdep)\n                else:\n                    ode_modifier[key] = {\n                        "factors": [fact],\n                        "reactants": [rdep],\n                    }\n',
+     "new": '                entry = ode_modifier.setdefault(key, {"factors": [], "reactants": []})\n                entry["factors"].append(fact)\n                entry["reactants"].append(rdep)\n'},
+    {"name": "network-stores-dict-copy", "file": NETWORK, "old": "        self._rate_modifier = rate_modifier.copy() if rate_modifier else {}", "new": "        self._rate_modifier = dict(rate_modifier) if rate_modifier else {}"},
     {"name": "override-guard-flipped", "file": T, "old": "if key == reac.idxfromfile:", "new": "if reac.idxfromfile == key:"},
     {"name": "rename-loop-var", "file": T, "old": "for sname, expr in ode_modifier.items():\n            spec = Species(sname, **species_kwargs)", "new": "for target, expr in ode_modifier.items():\n            spec = Species(target, **species_kwargs)"},
 ]
